@@ -13,13 +13,18 @@ import (
 	"github.com/benoitkugler/textprocessing/pango/fcfonts"
 	"github.com/go-text/typesetting/fontscan"
 
+	"github.com/benoitkugler/webrender/backend"
 	"github.com/benoitkugler/webrender/css/counters"
+	pa "github.com/benoitkugler/webrender/css/parser"
 	pr "github.com/benoitkugler/webrender/css/properties"
+	"github.com/benoitkugler/webrender/css/selector"
+	"github.com/benoitkugler/webrender/css/validation"
 	bo "github.com/benoitkugler/webrender/html/boxes"
 	"github.com/benoitkugler/webrender/html/document"
 	"github.com/benoitkugler/webrender/html/layout"
 	"github.com/benoitkugler/webrender/html/tree"
 	"github.com/benoitkugler/webrender/images"
+	"github.com/benoitkugler/webrender/svg"
 	"github.com/benoitkugler/webrender/text"
 	"github.com/benoitkugler/webrender/text/hyphen"
 	"github.com/benoitkugler/webrender/utils"
@@ -198,7 +203,9 @@ func (rn *runner) exec(op Op) {
 					res.Stack = string(buf[:runtime.Stack(buf, false)])
 					res.Frame = topFrame(res.Stack)
 				}
-				rn.dead = true
+				if op.Op != "entry" { // entry ops are independent of each other
+					rn.dead = true
+				}
 			}
 		}()
 		rn.do(op, &res)
@@ -234,6 +241,9 @@ func (rn *runner) do(op Op, res *OpResult) {
 			panic("harness: " + err.Error())
 		}
 		rn.st.fc[op.ID] = fc
+	case "entry":
+		// a parser entry point driven directly with document-derived text (C07)
+		res.Calls = runEntry(op.Kind, op.Text)
 	case "css":
 		b := []byte(op.Text)
 		if op.Text == "" {
@@ -492,4 +502,62 @@ func pageGeom(p *bo.PageBox) PageGeom {
 	g.FirstWord = first
 	g.MaxLineBottom = maxBottom
 	return g
+}
+
+
+// runEntry feeds text to one of the parsing entry points named by C07's observe_at.
+// Errors / nil results are fine; only panics, fatal errors and endless loops count.
+func runEntry(kind, txt string) int {
+	switch kind {
+	case "selector":
+		g, _ := selector.ParseGroup(txt)
+		for _, sl := range g {
+			_ = sl.String()
+			_ = sl.Specificity()
+		}
+		if s1, err := selector.Parse(txt); err == nil && s1 != nil {
+			_ = s1.String()
+		}
+		return len(g)
+	case "stylesheet":
+		_, _ = tree.NewCSSDefault(utils.InputString(txt))
+		return len(pa.ParseStylesheetBytes([]byte(txt), false, false))
+	case "declarations":
+		decls := pa.ParseBlocksContentsString(txt)
+		out := validation.PreprocessDeclarations("http://sim.test/entry/", decls)
+		_ = pa.ParseDeclarationListString(txt, true, true)
+		return len(out)
+	case "tokens":
+		toks := pa.Tokenize([]byte(txt), false)
+		_ = pa.Serialize(toks)
+		_ = pa.ParseOneComponentValue(toks)
+		_ = pa.ParseOneDeclaration(toks)
+		_ = pa.ParseNth(toks)
+		_ = pa.ParseRuleList(toks, true, true)
+		return len(toks)
+	case "color":
+		_ = pa.ParseColorString(txt)
+		return 1
+	case "svg":
+		loader := func(url string) (backend.Image, error) { return nil, fmt.Errorf("no nested images in entry mode") }
+		fetch := func(url string) (utils.RemoteRessource, error) { return utils.RemoteRessource{}, fmt.Errorf("no fetch in entry mode") }
+		img, err := svg.Parse(strings.NewReader(txt), "http://sim.test/entry/x.svg", loader, fetch)
+		if err == nil && img != nil {
+			_, _ = img.DisplayedSize()
+			_ = img.ViewBox()
+		}
+		return 1
+	case "dataurl":
+		r, err := utils.DefaultUrlFetcher(txt)
+		if err == nil && r.Content != nil {
+			return r.Content.Len()
+		}
+		return 0
+	case "fontface":
+		decls := pa.ParseBlocksContentsString(txt)
+		_ = validation.PreprocessFontFaceDescriptors("http://sim.test/entry/", decls)
+		_ = validation.PreprocessCounterStyleDescriptors("http://sim.test/entry/", decls)
+		return len(decls)
+	}
+	panic("harness: unknown entry kind " + kind)
 }
